@@ -22,8 +22,8 @@ TEXT = {
          "div_euclid family: known finding (region carved out, witness replayed each run); _int forms 8-bit only"),
  "C08": ("BOUNDED (level other): Kani runs the real parsers on every byte string up to a stated length (9 bytes; 6/8 for decimal), every radix and all nine 8-bit layouts symbolic, against the exactly rounded literal, the overflow/wrap policy and an independent grammar; complete within the bound, never counted as proof",
          "bound on string length and width (8-bit types); Kani's model of Rust; two genuine defects found this way were fixed (known_findings.json)"),
- "C09": ("BOUNDED (level other): Kani runs the real formatters on every 8-bit value x all nine layouts: default output correctly rounded and round-trip safe, {:.p} (p <= 9) exactly rounded outside the recorded finding, flags only pad/prefix, radix-2^k outputs exact",
-         "8-bit layouts, precision <= 9, from_utf8 stubbed; known finding F-C09-early-trim carved out"),
+ "C09": ("BOUNDED (level other): Kani runs the real formatters on every 8-bit value x all nine layouts: default output correctly rounded and round-trip safe, {:.p} (p <= 9) exactly rounded, flags only pad/prefix, radix-2^k outputs exact",
+         "8-bit layouts, precision <= 9, from_utf8 stubbed; the early-trim defect found this way was fixed (known_findings.json)"),
  "C11": ("Both back ends verify under the checking semantics (overflow checks, shift checks, debug assertions of the dev-profile expansion); this check owns the panic-class obligations of all Verus units and of the listed Kani harnesses: when every such site is discharged under the function's precondition, no check can fire and the unchecked build computes the same value",
          "only functions under contract are covered; evidence.public_fn_coverage lists the public functions under Verus contract, exercised by Kani only, and not covered"),
  "C12": ("Verus verifies exp, pow, powi, ln, log2 as written, generic over all supported (S, D), against trait-level contracts (no panic-class obligation left; conventions as postconditions); Kani proves sin/cos/tan/sqrt/log2/ln/exp total on I9F23 (whole domain) and sin/cos/exp on wider types for the stated ranges",
